@@ -146,7 +146,7 @@ CHECKS = {
     },
     'C14': {
         'families': [['c14:remote', 1.0]],
-        'runs': {'quick': 5000, 'thorough': 250000},
+        'runs': {'quick': 7000, 'thorough': 350000},
         'budget': {'quick': 110, 'thorough': 1500},
         'level': 'exploration',
         'rule': ('each evaluation starts a real CourierServer (plus a host server) on the simulated network, and 1-3 '
@@ -192,7 +192,7 @@ CHECKS = {
     },
     'C16': {
         'families': [['c16:dist', 1.0]],
-        'runs': {'quick': 4000, 'thorough': 200000},
+        'runs': {'quick': 8000, 'thorough': 400000},
         'budget': {'quick': 110, 'thorough': 1500},
         'level': 'exploration',
         'rule': ('each evaluation draws a pipeline from the operator grammar and a dataset, runs it in process '
@@ -213,7 +213,7 @@ CHECKS = {
     },
     'C06': {
         'families': [['c06:tasks', 1.0], ['c06:shards', 1.0]],
-        'runs': {'quick': 5000, 'thorough': 250000},
+        'runs': {'quick': 12000, 'thorough': 600000},
         'budget': {'quick': 115, 'thorough': 1500},
         'level': 'fault_enumeration',
         'rule': ('each evaluation runs as_completed (1-6 tasks) or sharded_pipelines_as_iterator (1-6 shards, exact '
